@@ -1512,7 +1512,7 @@ func (w *world) volume(t int, op *Op, in *slotVal, res *opResult) {
 				if it&7 == 3 && it < 1<<15 {
 					// distinct values pass through the text side as well (a table of labels or names fills up)
 					if st, ok := twin.(fmt.Stringer); ok {
-						h = fnv(h, stripAddrs(vopString(st)))
+						h = fnv(h, stripAddrs(safeString(st)))
 					}
 				}
 				if err != nil {
@@ -1666,4 +1666,16 @@ func fnvBytes(h uint64, b []byte) uint64 {
 		h *= 0x100000001b3
 	}
 	return h
+}
+
+// safeString is String() for the middle of a volume loop: a String method that panics on an extreme value
+// (REMB with a bitrate beyond its unit table does - C17's business) must not end the loop at an iteration that
+// depends on the direction the values are walked in (the O8 twin walks them backwards).
+func safeString(st fmt.Stringer) (s string) {
+	defer func() {
+		if recover() != nil {
+			s = "<panic>"
+		}
+	}()
+	return vopString(st)
 }
